@@ -787,3 +787,24 @@ Section DumpProofs.
     cbv iota in H. destruct H as [[H _]|[[H _]|[H _]]]; discriminate H.
   Qed.
 End DumpProofs.
+
+(* ------------------------------------------------------------ no arithmetic trap in is_repeated *)
+(* `(addr & 0xff) * 0x0101..01` is a plain u64 multiplication (traps on overflow in a debug build): it cannot overflow *)
+Lemma land_255_range a : 0 <= Z.land a 255 <= 255.
+Proof.
+  split; [apply Z.land_nonneg; right; lia|].
+  assert (H : Z.land a 255 = a mod 2 ^ 8) by (change 255 with (Z.ones 8); apply Z.land_ones; lia).
+  rewrite H. pose proof (Z.mod_pos_bound a (2 ^ 8) ltac:(lia)). lia.
+Qed.
+
+Lemma is_repeated_no_overflow a :
+  0 <= Z.land a 255 * REPEAT_MUL_2 < two64 /\ 0 <= Z.land a 255 * REPEAT_MUL_4 < two64 /\
+  0 <= Z.land a 255 * REPEAT_MUL_8 < two64.
+Proof.
+  pose proof (land_255_range a) as H. rewrite two64_val.
+  assert (B2 : 0 <= REPEAT_MUL_2 /\ 255 * REPEAT_MUL_2 < 2 ^ 64) by (vm_compute; split; [discriminate|reflexivity]).
+  assert (B4 : 0 <= REPEAT_MUL_4 /\ 255 * REPEAT_MUL_4 < 2 ^ 64) by (vm_compute; split; [discriminate|reflexivity]).
+  assert (B8 : 0 <= REPEAT_MUL_8 /\ 255 * REPEAT_MUL_8 < 2 ^ 64) by (vm_compute; split; [discriminate|reflexivity]).
+  generalize dependent REPEAT_MUL_2. generalize dependent REPEAT_MUL_4. generalize dependent REPEAT_MUL_8.
+  intros m8 B8 m4 B4 m2 B2. nia.
+Qed.
